@@ -194,7 +194,7 @@ func TestC15HashGrid(t *testing.T) {
 func testC15History(t *testing.T, kind sim.Kind) {
 	col := stats.New("C15", t.Name(),
 		"L0 histories (all four kinds) with invalid calls, failing transactions (rollback replays and re-numbers), remote deliveries and batches >= 11; after every step: the replica's emitted operations have seq 1..n in order, "+
-			"each newly emitted operation's (lamport,cuid) is greater than that of every operation the replica had applied before, no two operations share (lamport,cuid); at the end every identity occurring in any operation (element ids, anchors, targets, parents) has a distinct Timestamp.Hash; "+
+			"each newly emitted operation's (lamport,cuid) is greater than that of every operation the replica had applied before, no two operations share (lamport,cuid); at the end every identity occurring in any operation (element ids, anchors, targets, parents) has a distinct Timestamp.Hash; at every quiescent point every replica equals the reference model, which resolves each operation's targets by identity (an operation addressed to one element touches no other); "+
 			"non-trivial = >=1 failed call or rollback between two successful calls of the same replica AND >=1 remote delivery before a later local operation; distinct = hash of the action sequence")
 	checkProp(t, "C15", col, func(c *caseCtx) {
 		cfg := drawL0Config(c.rt, kind)
@@ -259,7 +259,14 @@ func testC15History(t *testing.T, kind sim.Kind) {
 			}
 			return nil
 		}
-		m, actions := runL0(c, cfg, maxStepsL0(), perStep, func(m *l0Machine) error { return nil })
+		// "an operation addressed to one element never touches another": at every quiescent point the replicas
+		// show what the reference model computes from the operations, which resolves every target by its identity
+		m, actions := runL0(c, cfg, maxStepsL0(), perStep, func(m *l0Machine) error {
+			if err := m.matchesReference(); err != nil {
+				return fmt.Errorf("an operation did not reach the element it is addressed to (or reached another one): %v", err)
+			}
+			return nil
+		})
 		// identity keys
 		keys := map[string]string{}
 		ids := 0
